@@ -156,6 +156,12 @@ def specials():
             ("LABEL", "w"), ("PUSH", 9)] + R32, f"keccak-offset-overflow-{nm}")
         sp(f"keccak-plus-offset-overflow-lt-{nm}", hx + hx + off + ["ADD", "LT", ("PUSHL", "w"), "JUMPI", ("PUSH", 7)] + R32 + [
             ("LABEL", "w"), ("PUSH", 9)] + R32, f"keccak-offset-overflow-{nm}")
+    # JUMPI not taken (concretely false condition): the destination is irrelevant, whatever it is
+    for nm, dest in (("oob", 0xFFFF), ("pushdata", 1), ("opcode", 4), ("valid", None)):
+        items = [("PUSH", 0)] + ([("PUSH", dest)] if dest is not None else [("PUSHL", "v")]) + ["JUMPI", ("PUSH", 7)] + R32 + [("LABEL", "v"), ("PUSH", 9)] + R32
+        sp(f"jumpi-false-{nm}-dest", items, "JUMPI-not-taken")
+        items = cd0 + cd0 + ["XOR"] + ([("PUSH", dest)] if dest is not None else [("PUSHL", "v")]) + ["JUMPI", ("PUSH", 7)] + R32 + [("LABEL", "v"), ("PUSH", 9)] + R32
+        sp(f"jumpi-xorzero-{nm}-dest", items, "JUMPI-not-taken")
     sp("stack-underflow", ["ADD"], "stack-underflow")
     sp("invalid-op", [0x0C], "undefined-opcode")
     sp("selfbalance-caller", ["CALLER", "BALANCE", "SELFBALANCE", "ADD"] + R32, "balance-read")
